@@ -30,6 +30,9 @@ pub(crate) trait Tbl {
     /// address and size of the whole object
     fn span(&self) -> (u64, usize);
     fn dup(&self) -> Box<dyn Tbl>;
+    /// `other.clone_from(self)` where `other` is a table of the same capacity with `fill` more
+    /// descriptors than an empty one (another number of used slots than `self`, usually)
+    fn dup_over(&self, fill: u64) -> Box<dyn Tbl>;
 }
 
 /// Where the next tables are placed: the GDT only guarantees 8-byte alignment, malloc gives 16, so
@@ -63,6 +66,9 @@ impl<T: Tbl + 'static> Tbl for Shifted<T> {
     }
     fn dup(&self) -> Box<dyn Tbl> {
         self.t.dup()
+    }
+    fn dup_over(&self, fill: u64) -> Box<dyn Tbl> {
+        self.t.dup_over(fill)
     }
 }
 
@@ -103,6 +109,17 @@ macro_rules! monomorphise {
             }
             fn dup(&self) -> Box<dyn Tbl> {
                 place(self.clone())
+            }
+            fn dup_over(&self, fill: u64) -> Box<dyn Tbl> {
+                let mut other = GlobalDescriptorTable::<$n>::empty();
+                for k in 0..fill {
+                    if other.entries().len() >= $n {
+                        break;
+                    }
+                    GlobalDescriptorTable::<$n>::append(&mut other, Descriptor::UserSegment(0x00cf_9300_0000_ffff ^ (k << 16)));
+                }
+                other.clone_from(self);
+                place(other)
             }
         })*
         /// `empty()` or `from_raw_entries(raw)`; panics of the crate propagate (call inside sut_call)
@@ -694,7 +711,11 @@ pub fn gen(seed: u64) -> Replay {
             2 => g.use_sel(&mut rng),
             3 => g.from_raw(&mut rng),
             4 => {
-                g.steps.push(json!({"op": "clone"}));
+                if rng.chance(50) {
+                    g.steps.push(json!({"op": "clone"}));
+                } else {
+                    g.steps.push(json!({"op": "clone_from", "fill": rng.below(7)}));
+                }
                 g.loaded = false;
             }
             _ => {
@@ -840,6 +861,16 @@ pub fn run(rp: &Replay, st: &mut Stats) -> Option<Violation> {
                     }
                 }
             }
+            "clone_from" => {
+                let fill = s["fill"].as_u64().unwrap_or(0).min(8);
+                let r = sut_call("clone_from", || tbl.dup_over(fill));
+                st.calls += 1;
+                st.count("clone_from_into_a_table_with_other_contents");
+                match r {
+                    Err(p) => return Some(viol(P, "clone-panic", i, format!("clone_from of a table with {} slots into one with {} panicked: {p}", m.slots.len(), 1 + fill))),
+                    Ok(t) => replace_table(&mut tbl, t, &mut m),
+                }
+            }
             "clone" => {
                 let r = sut_call("clone", || tbl.dup());
                 st.calls += 1;
@@ -850,7 +881,7 @@ pub fn run(rp: &Replay, st: &mut Stats) -> Option<Violation> {
             }
             "load" => {
                 let as_static = s["how"] == "static";
-                let r = sut_call("load", || tbl.load(as_static));
+                let r = sut_call("load", || monitor(|| tbl.load(as_static)));
                 st.calls += 1;
                 if let Err(p) = r {
                     return Some(viol(P, "load-panic", i, format!("load panicked: {p}")));
